@@ -28,7 +28,7 @@ pub fn replay(prop: &str, case: &str) -> i32 {
     };
     match prop {
         "C01" | "C02" | "C03" | "C04" | "C05" | "C06" | "C07" | "C08" | "C09" | "C10" => {
-            let (Some(g), Some(r), Some(t)) = (get(&parts, "g"), get(&parts, "r"), get(&parts, "t")) else {
+            let (Some(g), Some(r), Some(t)) = (get(&parts, "g"), get(&parts, "r"), get(&parts, "t").or(Some(""))) else {
                 println!("replay: case needs g, r, t");
                 return 2;
             };
@@ -51,7 +51,17 @@ pub fn replay(prop: &str, case: &str) -> i32 {
                 }
             };
             let mut tape = Tape::forced(tape);
-            let tr = crate::exec::run_case(&mut sub.g, &rs, &mut tape);
+            let tr = if get(&parts, "rt").is_some() {
+                let hold: usize = get(&parts, "hold").and_then(|h| h.parse().ok()).unwrap_or(0);
+                println!("(replaying inside a tokio current-thread runtime, hold={hold})");
+                if rs.api.is_stream() {
+                    crate::threads::runtime_stream_case(&sub.g, &rs, hold)
+                } else {
+                    crate::threads::runtime_case(&mut sub.g, &rs)
+                }
+            } else {
+                crate::exec::run_case(&mut sub.g, &rs, &mut tape)
+            };
             println!("graph: {}", sub.gs.encode());
             println!("built edges: {:?}", sub.built.edges);
             println!("run: {}", rs.encode());
